@@ -297,7 +297,7 @@ impl Profile for F3 {
                 admin: Some(addrs[3].clone()),
                 funds: vec![],
                 salt: None,
-                intent: Some(Intent { hid: h.id(), args: Value::Object(args) }),
+                intent: Some(Intent { hid: h.id(), args: Value::Object(args), cid: String::new() }),
             });
         }
         WorldPlan { custom_chain: false, twin: false, accounts, codes, codes1: vec![], setup }
@@ -341,7 +341,7 @@ impl Profile for F3 {
                 sender,
                 msg: Doc::json(&json!({"go": args})),
                 funds: vec![],
-                intent: Some(Intent { hid: "execute::go".into(), args }),
+                intent: Some(Intent { hid: "execute::go".into(), args, cid: String::new() }),
             });
         }
         let _ = g.prop;
